@@ -73,6 +73,10 @@ EVENTS = [
     # one stretch, three storms, ends in a storm
     ([('dry', 3), ('storm', 2), ('dry', 6), ('storm', 2), ('dry', 6),
       ('storm', 3)], []),
+    # only drizzle (below the storm threshold): nothing is ever paired.  Used
+    # by the step-sequence spaces of C02-C04, not by C20 itself
+    ([('dry', 2), ('drizzle', 2), ('dry', 5), ('drizzle', 1), ('dry', 6),
+      ('drizzle', 3), ('dry', 4)], []),
 ]
 DATASETS = {'quick': [0], 'thorough': [0, 1, 2]}
 
@@ -89,6 +93,10 @@ def dataset(which=0):
             for _ in range(n):
                 rain.append(0.0)
                 z.append(z[-1] - 1.5)
+        elif kind == 'drizzle':
+            for _ in range(n):
+                rain.append(1.0)
+                z.append(z[-1] + 0.5)
         else:
             for _ in range(n):
                 rain.append(10.0)
@@ -107,6 +115,8 @@ STEPS_ALL = {
     'classify-B': ['classify', '{db}', '-s', '4', '-j', '0.25'],
     'grid-1': ['set-zeta-grid', '{db}', '-d', '1'],
     'grid-0.5': ['set-zeta-grid', '{db}', '-d', '0.5'],
+    # a grid coarser than most rises (only in C13's step sequences)
+    'grid-25': ['set-zeta-grid', '{db}', '-d', '25'],
     'curvature-1.5': ['set-curvature', '{db}', '1.5'],
     'curvature-0.25': ['set-curvature', '{db}', '0.25'],
     'rise': ['rise', '{db}'],
@@ -118,7 +128,7 @@ ALPHABET = {
     'quick': ['classify-A', 'classify-B', 'grid-1', 'grid-0.5',
               'curvature-1.5', 'rise', 'rise-ref', 'recession',
               'recession-ref'],
-    'thorough': sorted(STEPS_ALL),
+    'thorough': sorted(s_ for s_ in STEPS_ALL if s_ != 'grid-25'),
 }
 
 
